@@ -170,6 +170,8 @@ class DictObj:
         self.name = name
         self.oid = new_oid()
         self.writes = 0          # number of write operations executed on this path (frame checks)
+        self.hooks = None        # data-structure invariant of a store: on_read assumes it for the entry read,
+                                 # on_write emits the obligations that keep it
 
     def snapshot(self):
         return (self.has, self.val)
